@@ -36,6 +36,10 @@ func (m *TN93Model) Distance(seq1 []uint8, seq2 []uint8, weights []float64) (flo
 	var b1, b2, b3 float64
 
 	trS, trV, p1, p2, total := countMutations(seq1, seq2, m.selectedSites, weights)
+	if total > 0 && trS == 0 && trV == 0 {
+		// No difference between the two sequences (whatever the base frequencies)
+		return 0, nil
+	}
 	trS, trV, p1, p2 = trS/total, trV/total, p1/total, p2/total
 
 	piy := m.pi[1] + m.pi[3]
@@ -48,6 +52,10 @@ func (m *TN93Model) Distance(seq1 []uint8, seq2 []uint8, weights []float64) (flo
 	e2 := 1 - trV/(2*pir) - pir*p1/(2*papg)
 	e3 := 1 - trV/(2*piy) - piy*p2/(2*pcpt)
 
+	if !(e1 > 0 && e2 > 0 && e3 > 0) {
+		// The estimator is undefined (saturated pair, or no comparable site)
+		return math.Inf(1), nil
+	}
 	if m.gamma {
 		b1 = (piy/pir*m.alpha*(1.-math.Pow(e1, -1./m.alpha)) - 1./pir*m.alpha*(1.-math.Pow(e2, -1./m.alpha)))
 		b2 = (pir/piy*m.alpha*(1.-math.Pow(e1, -1./m.alpha)) - 1./piy*m.alpha*(1.-math.Pow(e3, -1./m.alpha)))
